@@ -35,7 +35,8 @@ def engine_deductive(rep, targets, heap_lemmas=True, term_lemmas=False):
                         'A-RN-INV: whether a stored fact matches does not depend on the fresh variable ids of the per-use copy '
                         '(axiom `matches`, spec/heap.smt2; bounded-checked by the differential runs)',
                         'A-FRESH: Variable() returns an object distinct from every existing one, unbound',
-                        'assumed contracts (not verified): YP.atom (interning dict: one object per name and engine), chain_functions (closure over itertools.chain), '
+                        'assumed contracts (not verified): chain_functions (closure over itertools.chain); YP.atom is used as the pure function name -> TAtom(name) '
+                        '(verified against the atom table under C04/C16; object identity of atoms is not modelled: atoms are compared by name), '
                         'A-EXT-REDUCE (functools.reduce over reversed(l) is the right fold: makelist is verified relative to it), '
                         'inspect.signature, sys.get/setrecursionlimit (raises iff the limit is not above the current depth)',
                         'rely at every yield: the consumer changes the database only through the engine API, whose functions '
@@ -56,3 +57,40 @@ def topython_deductive(rep):
     fw.add_smt(rep, lemmas.prove_pyval_lemmas(), 'spec.pyval-lemmas')
     rep.lemmas.append('L-RES-RES / L-RES-FIX / L-RESL (resolve returns a resolved term, resolved terms are fixed points, resolvel is pointwise), '
                       'L-WFL-NTH: proved by induction (SMT)')
+
+
+def atom_table_deductive(rep):
+    """YP.atom verified against the atom table itself (contracts/engine_atom.py, AtomStoreTheory) + encapsulation of the table"""
+    import ast
+    from ..pyvc import core
+    from ..pyvc.theory_engine import AtomStoreTheory
+    fw.deductive(rep, ['engine.YP.atom'], ['engine_atom'], ['terms.smt2', 'heap.smt2'], theory=AtomStoreTheory)
+    # the representation invariant is about a private table: `_atom_store` is named only in __init__ / clear (which install an empty
+    # dict display) and in atom; no getattr / __dict__ / vars access to engine objects anywhere in the module
+    mod = core.module('engine')
+    probs = []
+    for q, fn in mod.functions.items():
+        for n in core.walk_own(fn):
+            if isinstance(n, ast.Attribute) and n.attr == '_atom_store':
+                if q == 'YP.atom':
+                    continue
+                ok = q in ('YP.__init__', 'YP.clear') and isinstance(n.ctx, ast.Store)
+                if ok:
+                    continue
+                probs.append('%s line %d: %s' % (q, n.lineno, ast.unparse(n)))
+            if isinstance(n, ast.Constant) and n.value == '_atom_store':
+                probs.append('%s line %d: the attribute name as a string' % (q, n.lineno))
+            if isinstance(n, ast.Attribute) and n.attr == '__dict__':
+                probs.append('%s line %d: __dict__' % (q, n.lineno))
+    for q in ('YP.__init__', 'YP.clear'):
+        fn = mod.functions.get(q)
+        inits = [a for a in (core.walk_own(fn) if fn else []) if isinstance(a, ast.Assign)
+                 and any(isinstance(t, ast.Attribute) and t.attr == '_atom_store' for t in a.targets)]
+        if not inits or not all(isinstance(a.value, ast.Dict) and not a.value.keys and len(a.targets) == 1 for a in inits):
+            probs.append('%s does not install an empty dict display as the atom table' % q)
+        elif fn is not None:
+            # the table is installed before the first atom is made (ATOM_NIL = self.atom("[]"))
+            first_atom = min([n.lineno for n in core.walk_own(fn) if isinstance(n, ast.Call) and ast.unparse(n.func) == 'self.atom'] or [10 ** 9])
+            if min(a.lineno for a in inits) > first_atom:
+                probs.append('%s makes an atom before the table is installed' % q)
+    rep.add_checked('engine.YP._atom_store.encapsulated', not probs, '; '.join(probs), 'ast', function='engine.YP.atom', witness=probs or None)
